@@ -171,19 +171,19 @@ theorem stmt_bytes_of_outcome (enc : Encoder) (fs2 : Front.St) (i : Instr) (h : 
 /-! ### non-vacuity -/
 
 /-- the tree of `Simp.resumes_false`: `(0 - (r1 - r0)) + x` -/
-def exTree : Arg :=
+def exNegTree : Arg :=
   .bin .add (.bin .sub (.const 0) (.bin .sub (.ident [114, 49]) (.ident [114, 48]))) (.ident [120])
 
 /-- `.du32 (0 - (r1 - r0)) + x` with `x = 1` defined below: the operand is NOT `plain`, the two paths leave DIFFERENT
 trees (`(r0 - r1) + 1` and `-(r1 - r0) + 1`) — and `du_bytes_order_independent` applies: neither is a number, both
 are diagnosed. -/
 example :
-    plainArg exTree = false ∧
-    evalIn [] exTree =
+    plainArg exNegTree = false ∧
+    evalIn [] exNegTree =
       .ok (.noSuch [120] (.bin .add (.neg (.bin .sub (.ident [114, 49]) (.ident [114, 48]))) (.ident [120]))) ∧
     evalIn [([120], some 1)] (.bin .add (.neg (.bin .sub (.ident [114, 49]) (.ident [114, 48]))) (.ident [120])) =
       .ok (.complete (.bin .add (.bin .sub (.ident [114, 48]) (.ident [114, 49])) (.const 1))) ∧
-    evalIn [([120], some 1)] exTree =
+    evalIn [([120], some 1)] exNegTree =
       .ok (.complete (.bin .add (.neg (.bin .sub (.ident [114, 49]) (.ident [114, 48]))) (.const 1))) ∧
     Table.Sub [] [([120], some 1)] ∧ Table.NoDef [] :=
   ⟨rfl, rfl, rfl, rfl, fun _ _ h => by simp [Table.find] at h, fun _ h => by simp [Table.find] at h⟩
@@ -191,9 +191,9 @@ example :
 /-- the same tree as the target of `B`: deferred, then an error on the retry and an error on the fresh assembly
 (`stmt_outcome_order_independent_number`: no hypothesis about the tree) -/
 example :
-    (∃ fs1, Front.build 0 [66] [exTree] (frontEval []) true = .deferred [120] fs1 ∧
+    (∃ fs1, Front.build 0 [66] [exNegTree] (frontEval []) true = .deferred [120] fs1 ∧
       (Front.assemble fs1 (frontEval [([120], some 1)]) false).2 = .error (.argType 0 [.const] .add)) ∧
-    (∃ st, Front.build 0 [66] [exTree] (frontEval [([120], some 1)]) true = .error (.argType 0 [.const] .add) st) ∧
+    (∃ st, Front.build 0 [66] [exNegTree] (frontEval [([120], some 1)]) true = .error (.argType 0 [.const] .add) st) ∧
     (∀ t, Front.mnemonic [66] = some t → ∀ k ∈ Front.kinds t, k.shape = false) := by
   refine ⟨⟨_, rfl, rfl⟩, ⟨_, rfl⟩, fun t ht k hk => ?_⟩
   have : t = .b 14 0 := by
